@@ -120,7 +120,9 @@ def check_concat(c, inputs, out, dim):
 
 class C12(Prop):
     id = "C12"
-    theorems = ["stackNew_get", "stackNew_shape", "concat2_get", "concat2_shape"]
+    theorems = ["stackNew_get", "stackNew_shape", "concat2_get", "concat2_shape", "transpose_names_dims",
+                "reorderLikeFirst_dims", "reorderLikeFirst_error", "stack_spec", "stack_error_is_not_ok_of_label_mismatch",
+                "concatenate_labels"]
     rule = ("lists and dicts of 1-4 arrays over one set of dimensions listed in the same or in a different order "
             "(square shapes included so that a positional mix-up is shape-compatible), secondary axes equal / permuted / "
             "overlapping / disjoint, int/float/str labels; stack with int/str keys and explicit / default axis name; "
